@@ -66,6 +66,9 @@ pub fn gen_request(conn: usize, i: usize, s: usize, last: bool, allow_malformed:
             resp: gen_resp_spec(&CODES),
         },
         extra_headers: (0..nh).map(|j| (format!("x-req{j}"), format!("w{}", gen::below(50)))).collect(),
+        raw_head: None,
+        raw_body: None,
+        meta: None,
     }
 }
 
